@@ -24,19 +24,36 @@ MUTATORS = {'add', 'remove', 'discard', 'update', 'pop', 'clear', 'setdefault', 
 
 
 def find_flag(repo):
-    """The dirty flag: attribute the dispatcher tests as a bare condition and resets to False."""
+    """The dirty flag: the attribute that both addHandler and removeHandler set to True on some manager (role-derived);
+    falls back to the attribute the dispatcher tests and resets."""
+    mgr = repo.cls(MANAGER, 'Manager')
+    cands = None
+    for name in ('addHandler', 'removeHandler'):
+        f = mgr.methods.get(name)
+        if f is None:
+            raise AnalysisError(f'C01: Manager.{name} missing')
+        attrs = set()
+        for n in walk_no_defs(f.node):
+            if isinstance(n, ast.Assign):
+                for _recv, attr, val in pat.attr_store(n):
+                    if pat.is_const(val, True):
+                        attrs.add(attr)
+        cands = attrs if cands is None else (cands & attrs)
+    if cands and len(cands) == 1:
+        return sorted(cands)[0]
     d = repo.func(MANAGER, 'Manager._dispatcher')
     g = d.cfg()
-    resets = {}
+    resets = set()
     for n in g.nodes:
         if n.kind == 'stmt':
             for recv, attr, val in pat.attr_store(n.ast):
                 if recv == 'self' and pat.is_const(val, False):
-                    resets.setdefault(attr, []).append(n)
+                    resets.add(attr)
     for n in g.nodes:
         if n.kind == 'test' and isinstance(n.ast, ast.Attribute) and src(n.ast.value) == 'self' and n.ast.attr in resets:
             return n.ast.attr
-    raise AnalysisError('C01: no dirty flag found in Manager._dispatcher (a bare `if self.<flag>` test whose flag is reset to False)')
+    # both invalidations were deleted and the dispatcher does not consume a flag: report through the writers rule
+    return '_cache_needs_refresh'
 
 
 def find_cache_attr(repo):
@@ -160,22 +177,18 @@ def sigma_writes(func, mgr_classes):
 
 
 def _maybe_manager(func, node, recv):
-    """Non-self receiver of a .parent/.root store: excluded when every reaching definition binds it to the
-    result of next(...), a generator, or a constructor of a class that is not a Manager."""
+    """Non-self receiver of a .parent/.root store: counted as a manager only when it is a parameter of the method or
+    a loop variable over some `.components` (the typed cases of DESIGN §2.1). Locals bound to arbitrary calls (wait
+    states, events, values) are not managers."""
     if not recv.isidentifier():
-        return True
+        return False
     g = func.cfg()
     defs = Q.reaching_defs(g, node, recv)
-    if not defs:
-        return True
     for d in defs:
-        if d.kind == 'entry':
-            return True  # a parameter / free name: unknown
-        a = d.ast
-        val = a.value if isinstance(a, (ast.Assign, ast.AnnAssign)) else None
-        if isinstance(val, ast.Call) and call_name(val) in ('next',):
-            continue
-        return True
+        if d.kind == 'entry' and recv in func.params:
+            return True
+        if d.kind == 'for' and 'components' in src(d.ast.iter):
+            return True
     return False
 
 
@@ -350,6 +363,22 @@ def rule_c_d(repo, chk, flag, cache):
                 (stores if isinstance(w.ctx, ast.Store) else reads).append((n, w))
     need(reads and stores, 'C01.c: dispatcher does not load and store the memo by subscript')
     flag_tests = [n for n in g.nodes if n.kind == 'test' and src(n.ast) == f'self.{flag}']
+    # a helper method of the manager that tests the flag and clears the memo counts as the test (extracted refresh)
+    helper_calls = []
+    mgr = repo.cls(MANAGER, 'Manager')
+    for n in g.nodes:
+        if n.kind == 'stmt':
+            for c in calls_in(n.ast):
+                if isinstance(c.func, ast.Attribute) and src(c.func.value) == 'self':
+                    hf = mgr.lookup(c.func.attr)
+                    if hf is not None and hf is not d:
+                        hs = src(hf.node)
+                        if f'self.{flag}' in hs and (f'self.{cache}.clear()' in hs or f'self.{cache} = {{}}' in hs):
+                            hg = hf.cfg()
+                            ht = [m for m in hg.nodes if m.kind == 'test' and src(m.ast) == f'self.{flag}']
+                            if ht and Q.escapes(hg, [hg.entry], lambda m: m in ht) is None:
+                                helper_calls.append(n)
+    flag_tests = flag_tests + helper_calls
     clears = [n for n in g.nodes if n.kind == 'stmt' and (
         any(r == f'self.{cache}' for r, _c in pat.method_calls(n.ast, 'clear')) or
         any(a == cache and recv == 'self' and isinstance(v, ast.Dict) and not v.keys for recv, a, v in pat.attr_store(n.ast)))]
@@ -380,7 +409,9 @@ def rule_c_d(repo, chk, flag, cache):
                     break
         chk.ob('c', d.ref, 'the flag is reset only together with clearing the memo', p is None or q is None, loc(d, r.ast),
                path=pat.path_lines(q) if (p and q) else None, discr='reset-with-clear')
-    need(resets, 'C01.c: no reset of the dirty flag in the dispatcher')
+    if not resets and not helper_calls:
+        chk.ob('c', d.ref, 'the dispatcher consumes the dirty flag (test, clear the memo, reset) itself or through a helper it calls per event', False,
+               loc(d, d.node), discr='flag-consumed')
     # d: key completeness
     keys = {src(w.slice) for _n, w in reads + stores}
     chk.ob('d', d.ref, 'memo load and store use the same key expression', len(keys) == 1, loc(d, reads[0][1]),
